@@ -89,6 +89,8 @@ def signature(e, why, expected):
                 cause = "%s:%s" % (fate, it["kind"])
                 if (why == "extra") == (fate != "doc"):
                     break
+        if why == "extra" and cause.startswith("ignorefile") and n is not None and not n.isascii():
+            cause += ":nonascii"
         return "%s:%s" % (sig, cause)
     if why == "content":
         eb, ob = bag(exp), bag(obs)
@@ -103,20 +105,20 @@ def signature(e, why, expected):
 def run(ctx):
     # ------------------------------------------------------------------ M + scripts
     res = ctx.model_check("DirArchive", "DirArchive_mc.cfg", timeout=1800, workers=4, coverage=ctx.thorough,
-                          defines={"Mode": '"dir"', "SizeMax": SIZEMAX, "MaxMembers": 0, "Emit": "TRUE"})
+                          defines={"Mode": '"dir"', "SizeMax": SIZEMAX, "MaxMembers": 0, "Scope": ctx.pick(1, 2), "Emit": "TRUE"})
     dir_scripts = res.printed("SCRIPT")
     if len(dir_scripts) * 2 != res.distinct:
         raise vk.Inconclusive("dir scripts printed (%d) != trees enumerated (%d)" % (len(dir_scripts), res.distinct // 2))
     if ctx.thorough:
         ctx.notes.append("coverage zero (dir): %s" % (res.coverage_zero() or "none"))
     res = ctx.model_check("DirArchive", "DirArchive_mc.cfg", timeout=1800, workers=4,
-                          defines={"Mode": '"archive"', "SizeMax": SIZEMAX, "MaxMembers": ctx.pick(2, 3), "Emit": "TRUE"})
+                          defines={"Mode": '"archive"', "SizeMax": SIZEMAX, "MaxMembers": ctx.pick(2, 3), "Scope": 1, "Emit": "TRUE"})
     arch_scripts = res.printed("SCRIPT")
     if len(arch_scripts) * 2 != res.distinct:
         raise vk.Inconclusive("archive scripts printed (%d) != scenarios enumerated (%d)" % (len(arch_scripts), res.distinct // 2))
     all_dir, all_arch = len(dir_scripts), len(arch_scripts)
     rnd = random.Random(ctx.seed)
-    nd, na = ctx.pick(700, all_dir), ctx.pick(700, 6000)
+    nd, na = ctx.pick(200, 3000), ctx.pick(200, 3000)
     if len(dir_scripts) > nd:
         dir_scripts = rnd.sample(dir_scripts, nd)
     if len(arch_scripts) > na:
@@ -153,7 +155,8 @@ def run(ctx):
         for f in (prog, phase):
             if os.path.exists(f):
                 os.remove(f)
-        rc, out = ctx.run_bin(binp, run_, env=dict(env, VERIF_OUT=trace), timeout=3000)
+        env = dict(env, VERIF_OUT=trace, C15_RANDOM=ctx.pick(110, 1200))
+        rc, out = ctx.run_bin(binp, run_, env=env, timeout=6000)
         if rc != 0 or "--- PASS" not in out:
             if (os.path.exists(prog) and os.path.exists(phase) and json.load(open(phase)) == "indexing"
                     and "--- FAIL" not in out and rc != 124):
@@ -182,7 +185,12 @@ def run(ctx):
         e = events[r["line"] - 1]
         rejected_lines.add(r["line"])
         if e["ev"] == "glob":
-            report("C15:" + r["why"], {"case": show_event(e), "expected_match": r["expected"]["fates"], "err": e["err"]})
+            sig = "C15:" + r["why"]
+            if r["why"] == "glob":
+                diff = [(text(p), m, x) for p, m, x in zip(e["paths"], e["match"], r["expected"]["fates"]) if m != x]
+                if all(x and not m and not p.isascii() for p, m, x in diff):
+                    sig += ":nonascii"      # a pattern does not match a path with a multi-byte character
+            report(sig, {"case": show_event(e), "expected_match": r["expected"]["fates"], "err": e["err"]})
             continue
         sig = signature(e, r["why"], r["expected"])
         report(sig, {"driver": origin[r["line"] - 1], "scenario": show_event(e),
